@@ -14,6 +14,8 @@ import ArvVerif.Proofs.C16_RunQueue
 import ArvVerif.Proofs.C16_RunQueue2
 import ArvVerif.Proofs.C16_Queue
 import ArvVerif.Proofs.C16_Compose
+import ArvVerif.Proofs.C16_Pool
+import ArvVerif.Proofs.C16_Bounds
 namespace ArvVerif.C16
 
 /-! ## Part A -/
@@ -63,6 +65,20 @@ theorem C16_arith (reserve : Int) (c : Ctr) (hr : InRange reserve c) :
     by_cases hlt : (tmpCaps c.mounts).foldl (· + ·) 0 < imageSizeSpec c.image
     · rw [if_pos hlt]; omega
     · rw [if_neg hlt]; omega
+
+/-- **Explicit bounds.** `InRange` holds for every container with
+|ram + keep_cache + reserve| ≤ 92 233 720 368 547 758 (≈ 81.9 PiB; one byte more and `· 100` wraps:
+`ramProduct_tight`), a PDH manifest length ≤ 42·2³⁶ + 79 (image estimate < 4 EiB) and a tmp capacity
+sum within ±2⁶² — so below these bounds all of Part A holds without any arithmetic side condition. -/
+theorem C16_inrange_of_bounds (reserve : Int) (c : Ctr)
+    (hram : -ramSumBound ≤ c.ram + c.keepCacheRAM + reserve ∧ c.ram + c.keepCacheRAM + reserve ≤ ramSumBound)
+    (himg : ∀ n, pdhSize? c.image = some n → n ≤ imageLenBound)
+    (htmp : -tmpSumBound ≤ (tmpCaps c.mounts).foldl (· + ·) 0 ∧ (tmpCaps c.mounts).foldl (· + ·) 0 ≤ tmpSumBound) :
+    InRange reserve c := by
+  obtain ⟨hi0, hi1⟩ := imageSizeSpec_bounds c.image himg
+  refine ⟨ramProduct_inRange _ hram.1 hram.2, ?_, ?_, scratchSpec_inRange _ _ htmp.1 htmp.2 hi0 hi1⟩
+  · unfold inInt64 two63; omega
+  · unfold inInt64 two63; unfold tmpSumBound at htmp; omega
 
 /-- the estimate is independent of the iteration order of the mounts map -/
 theorem C16_mount_order_irrelevant (ms1 ms2 : List Mount) (img : Int) (h : ms1.Perm ms2) :
@@ -283,6 +299,33 @@ theorem C16_priority_order_monotone {σ : Type} (P : Pool σ) (Dead : σ → Pro
 Create failures -/
 theorem C16_stub_monotone : CreateMonotone stubPool (fun p => p.canCreate ≤ p.created) :=
   stubPool_createMonotone
+
+/-- **The real pool's Create is monotone — derived from a model of `Pool.Create` and `throttle`**
+(`realPool`, Model/C16_Pool.lean: `time.Now()` against `atQuotaUntil`, `throttleCreate.Error()` with
+its expiry, `len(creating)` against `maxConcurrentInstanceCreateOps` and the 5 s hold-off it sets), at a
+frozen clock and with no cloud response arriving during the pass: Create fails exactly in the states
+`createBlocked`, every failed Create leaves the pool in such a state, and no call of a pass leaves it. -/
+theorem C16_realpool_monotone : CreateMonotone realPool createBlocked := realPool_createMonotone
+
+/-- Create of the real pool fails exactly when: at quota, throttled, or the create-ops limit is reached -/
+theorem C16_realpool_create_fails_iff (t : Nat) (p : RPool) :
+    (realPool.create t p).1 = false ↔
+      (p.now < p.atQuotaUntil ∨ p.throttled = true ∨ (0 < p.maxOps ∧ p.maxOps ≤ p.creating)) :=
+  realPool_create_fails_iff t p
+
+/-- **Priority order against the real pool**: `C16_priority_order_monotone` instantiated with the model
+of `worker.Pool` — no Create exception, for every pool state (any clock value, quota / throttle
+hold-offs, creates in flight, idle workers, lingering processes). -/
+theorem C16_priority_order_realpool (p0 : RPool) (unalloc : Nat → Int) (keys : List Nat)
+    (entries sorted : List Ent) (hs : IsSorted entries sorted)
+    (hnd : entries.Pairwise (fun a b => a.uuid ≠ b.uuid))
+    (pre post : List Ev) (t : Nat) (a b : Ent)
+    (htr : runQueue realPool p0 unalloc keys sorted = pre ++ Ev.start t b.uuid true :: post)
+    (ha : a ∈ entries) (hb : b ∈ entries)
+    (hal : a.st = .locked) (har : a.running = false) (hty : a.ty = t) (hpr : b.prio < a.prio) :
+    Ev.start a.ty a.uuid true ∈ pre ∨ Ev.kill true a.uuid true ∈ pre :=
+  C16_priority_order_monotone realPool createBlocked C16_realpool_monotone p0 unalloc keys entries sorted hs hnd
+    pre post t a b htr ha hb hal har hty hpr
 
 /-- **lockContainer.** `queue.Lock(u)` is called by a pass's goroutines only for a container that
 was Queued in the snapshot, is not running, has priority ≥ 1, whose `KillContainer(u, "about to
@@ -587,6 +630,37 @@ example :
 /-- the scenario C16-e on the model: an unsatisfiable Locked container is not added -/
 example : (applyPoll (fun _ => none) emptyCache [{ uuid := 1, st := .locked, prio := 5, need := 9 }]).1.current = [] ∧
     (applyPoll (fun _ => none) emptyCache [{ uuid := 1, st := .locked, prio := 5, need := 9 }]).2 = [1] := by decide
+
+/-- the explicit bounds are satisfiable at their edge: the largest RAM sum, a PDH of the largest
+admitted manifest length, a tmp mount of 2⁶² bytes -/
+def exBigCtr : Ctr :=
+  { vcpus := 1, ram := 92233720368547758, keepCacheRAM := 0, preemptible := false,
+    image := (List.replicate 32 97) ++ [43, 50, 56, 56, 54, 50, 49, 56, 48, 50, 50, 57, 57, 49],
+    mounts := [⟨tmpKind, 4611686018427387904⟩] }
+example : pdhSize? exBigCtr.image = some imageLenBound := by decide
+example : InRange 0 exBigCtr :=
+  C16_inrange_of_bounds 0 exBigCtr ⟨by decide, by decide⟩
+    (fun n hn => by
+      have h : pdhSize? exBigCtr.image = some imageLenBound := by decide
+      rw [h] at hn; injection hn with hn; omega)
+    ⟨by decide, by decide⟩
+/-- one byte more RAM and the int64 product wraps to a negative needRAM: any type is then "big enough"
+(the range hypothesis of Part A is needed; see notes, "int64 range") -/
+example : (needOf 0 { exBigCtr with ram := 92233720368547759 }).ram = -97088126703734481 := by decide
+
+/-- the real pool at a concrete state: one create op allowed at a time. The first Create succeeds, the
+second fails and sets the 5 s hold-off, the third fails because of the hold-off -/
+def exRPool : RPool :=
+  { now := 1000, atQuotaUntil := 0, thrErr := false, thrUntil := 0, creating := 0, maxOps := 1,
+    idle := fun _ => 0, runningProc := fun _ => false }
+example : (realPool.create 0 exRPool).1 = true := by decide
+example : (realPool.create 0 (realPool.create 0 exRPool).2).1 = false := by decide
+example : createBlocked (realPool.create 0 (realPool.create 0 exRPool).2).2 := by decide
+/-- what the frozen clock excludes: once `time.Now()` has passed the hold-off (and the cloud call has
+returned) Create succeeds again — the "Create failed, then succeeded" exception of
+`C16_priority_order` needs such an event to fall inside the pass -/
+example : (realPool.create 0 { (realPool.create 0 (realPool.create 0 exRPool).2).2 with now := 6001, creating := 0 }).1 = true := by
+  decide
 
 /-- the seeded-change scenario C16-h on the model: a dispatcher that has just started finds container 1
 Locked by its own token; if the "locked by me" request does not select the sizing attributes the polled
